@@ -175,6 +175,7 @@ DEPENDS = {
             (r"C03/%s\.(pareto_updating|useful_updating)$" % _PAV, r"^(safe|mono)/"),
             (r"C09/(Rect|Ell)\.is_dominated\[", _DOM_SOUND), (r"C09/lemma\.box_extreme", r"."),
             (r"C10/(Rect|Ell)\.is_covered\[", _COV_COMPLETE),
+            (r"C(09|10)/(Rect|Ell)\.history\[", r"."),      # the predicates refer to the regions displayed NOW (along histories)
             (r"C17/get_alpha", r"."),
             (r"C04/(%s|Auer)\.modeling$" % _PAV[1:-1], r"."),
             (r"C02/Auer\.discarding\[", r"^(safe|mono)/"), (r"C03/Auer\.pareto_updating\[", r"^(safe|mono)/"),
@@ -185,6 +186,7 @@ DEPENDS = {
             (r"C03/(VOGP|EpsilonPAL)\.epsiloncovering$", r"^(safe|mono)/"),
             (r"C09/(Rect|Ell)\.is_dominated\[", _DOM_SOUND), (r"C09/lemma\.box_extreme", r"."),
             (r"C10/(Rect|Ell)\.is_covered\[", _COV_COMPLETE),
+            (r"C(09|10|11)/Rect\.history\[", r"."),         # the predicates refer to the regions displayed NOW (along histories)
             (r"C17/VOGP\.compute_u_star", r"."),
             (r"C04/(VOGP|EpsilonPAL)\.modeling$", r"."),
             (r"C06/(VOGP|EpsilonPAL)\.run_one_step$", r"^phases_run_once|^active_step"),
